@@ -169,7 +169,12 @@ class Experiment:
 
         CobaContext.logger.log("Experiment Started")
 
-        if result_file and Path(result_file).exists():
+        if result_file and Path(result_file).exists() and ".gz" not in result_file:
+            #An interrupted run can leave a last record without its line end. We remove it
+            #so it isn't restored and the next record we write doesn't end up on its line.
+            self._drop_unfinished_line(result_file)
+
+        if result_file and Path(result_file).exists() and Path(result_file).stat().st_size > 0:
             CobaContext.logger.log("Restoring Results")
             restored = Result.from_file(result_file)
         else:
@@ -188,7 +193,7 @@ class Experiment:
         source    = DiskSource(result_file) if result_file else ListSource(sink.items)
         decode    = TransactionDecode()
         result    = TransactionResult()
-        preamble  = Identity() if restored else Insert([["T0",meta]])
+        preamble  = Identity() if restored and restored.experiment else Insert([["T0",meta]])
 
         try:
             lrn_mismatch = restored and n_given_lrns != restored.experiment.get('n_learners',n_given_lrns)
@@ -207,6 +212,21 @@ class Experiment:
         del CobaContext.store['experiment_seed']
 
         return Pipes.join(source,decode,result).read()
+
+    def _drop_unfinished_line(self, path:str) -> None:
+        #cut the file back to its last line end (searching backwards from the end of the file)
+        with open(path,'rb+') as f:
+            end = f.seek(0,2)
+            pos = end
+            while pos > 0:
+                start = max(0,pos-2**16)
+                f.seek(start)
+                index = f.read(pos-start).rfind(b'\n')
+                if index >= 0:
+                    if start+index+1 != end: f.truncate(start+index+1)
+                    return
+                pos = start
+            f.truncate(0)
 
     def _parse_init_args(self,*args,**kwargs) -> Tuple[Sequence[Tuple[Environment,Learner]], Evaluator, Optional[str]]:
         #we know this with 100% certainty
